@@ -371,7 +371,9 @@ pub fn generate(seed: u64, tier: Tier) -> Doc {
     for _ in 0..nt {
         let exp = if r.chance(1, 2) { 0 } else { r.range(1, 9) as u16 };
         let chunk = if r.chance(2, 3) { 0 } else { r.range(1, 9) as u16 };
-        targets.push((*r.pick(&CATS), (exp << 8) | chunk, r.below(8) as u32));
+        // data file numbers are 0..7 in retail archives, but the command carries 32 bits
+        let file = if r.chance(1, 6) { r.range(8, 40) as u32 } else { r.below(8) as u32 };
+        targets.push((*r.pick(&CATS), (exp << 8) | chunk, file));
     }
     // pre-existing tree
     let mut pre: Vec<FileEnt> = vec![];
@@ -889,6 +891,13 @@ pub fn run_patches_opts(h: &mut Harness, body: &C03Doc, strict: bool, intact: &[
         h.log(&format!("patch {} -> {:?} tree {:016x}", pi, r.as_ref().map_err(|e| format!("{:?}", e)), h.fs.digest(DATA)));
         let patch_intact = intact.get(pi).copied().unwrap_or(true);
         match r {
+            Ok(()) if model.blocked && patch_intact => {
+                h.violate(
+                    "ok-but-blocked",
+                    format!("patch {} reported success although a regular file sits where it had to create a directory", pi),
+                );
+                return PatchRun { all_ok: false, applied };
+            }
             Ok(()) => {
                 applied += 1;
                 if patch_intact {
